@@ -67,8 +67,11 @@ unsigned int get_rex_prefix(struct instr *all_instr, struct operand *m,
   int rex_prefix = 0;
   unsigned int rm = m->reg;
   // preprocess vex paremeters
+  // (the operand size of a memory form is that of the register operand,
+  // not that of the address registers)
+  unsigned int size_reg = all_instr->mem_disp ? r->reg : m->reg;
   all_instr->hex.is_w0 = true;
-  if ((m->reg & MODE_MASK) < reg64)
+  if ((size_reg & MODE_MASK) < reg64)
     all_instr->hex.is_w0 = false;
   if ((m->reg & MODE_MASK) == mmx64 || (r->reg & MODE_MASK) == mmx64) {
     unsigned int vector_rex = get_vector_rex_prefix(all_instr, m->reg, r->reg);
